@@ -1,9 +1,12 @@
 (* Correspondence for C17: cases carry the implementation's observations; the model is re-run here. *)
-From FunV Require Import Base.Tac Model.SortSpec.
+From FunV Require Import Base.Tac Model.SortSpec Model.ListHeap.
 
 Inductive case :=
 | CIsSorted (id : Z) (ltk : Z) (l : list Z) (obs : bool)
-| CHeap (id : Z) (ltk : Z) (ops : list hop) (obs_pops : list (option Z)) (obs_final : list Z).
+| CHeap (id : Z) (ltk : Z) (ops : list hop) (obs_pops : list (option Z)) (obs_final : list Z)
+(* SortMerge (alg 0) / SortQuick (alg 1) on the pointer-level model, followed by PopFront and PushBack 77;
+   obs = |fwd| fwd |bwd| bwd Len allIn  popOk popValue  |fwd'| fwd' |bwd'| bwd' Len' *)
+| CSort (id : Z) (alg ltk : Z) (l : list Z) (obs : list Z).
 
 Definition optZ_eqb (a b : option Z) : bool :=
   match a, b with Some x, Some y => Z.eqb x y | None, None => true | _, _ => false end.
@@ -15,7 +18,32 @@ Fixpoint list_eqb {A} (eqb : A -> A -> bool) (a b : list A) : bool :=
   | _, _ => false
   end.
 
-Definition case_id (c : case) : Z := match c with CIsSorted id _ _ _ => id | CHeap id _ _ _ _ => id end.
+Definition case_id (c : case) : Z :=
+  match c with CIsSorted id _ _ _ => id | CHeap id _ _ _ _ => id | CSort id _ _ _ _ => id end.
+
+Definition zlp (vs : list Z) : list Z := Z.of_nat (List.length vs) :: vs.
+
+Fixpoint push_all (l : list Z) : M unit :=
+  match l with [] => ret tt | v :: l' => bind (PushBack 0 v) (fun _ => push_all l') end.
+
+Definition sort_obs (alg ltk : Z) (l : list Z) : option (list Z) :=
+  let sort := if Z.eqb alg 0 then SortMerge (lt_of ltk) 0%nat else SortQuick (lt_of ltk) 0%nat in
+  match bind (push_all l) (fun _ => sort) empty_world with
+  | Ret _ w =>
+      let f := fwd_nodes w 0 in
+      let o1 := zlp (fwd_vals w 0) ++ zlp (bwd_vals w 0) ++
+                [llen (lists w 0); if forallb (fun n => ref_eqb (nowner (nodes w n)) (Some 0%nat)) f then 1 else 0]%Z in
+      match PopFront 0%nat w with
+      | Ret e w1 =>
+          match bind (OkE e) (fun k => bind (Value e) (fun v => bind (PushBack 0 77) (fun _ => ret (k, v)))) w1 with
+          | Ret (k, v) w2 =>
+              Some (o1 ++ [if k then 1 else 0; v]%Z ++ zlp (fwd_vals w2 0) ++ zlp (bwd_vals w2 0) ++ [llen (lists w2 0)])
+          | _ => None
+          end
+      | _ => None
+      end
+  | _ => None
+  end.
 
 Definition check_case (c : case) : bool :=
   match c with
@@ -23,6 +51,8 @@ Definition check_case (c : case) : bool :=
   | CHeap _ k ops pops fin =>
       let '(p, f) := heap_run (lt_of k) [] ops in
       list_eqb optZ_eqb p pops && list_eqb Z.eqb f fin
+  | CSort _ alg k l obs =>
+      match sort_obs alg k l with Some o => list_eqb Z.eqb o obs | None => false end
   end.
 
 Definition mismatches (cs : list case) : list Z :=
